@@ -23,6 +23,17 @@ pub fn gen_multi_error_stream(t0: &mut Tape, labels: &mut Vec<String>) -> (Vec<u
         },
     );
     let mut mt = t0.fork(1200);
+    // a quarter of the inputs carry ONE FEE ID on all links (several links of one front-end, or a corrupted id):
+    // outside stave mode the links are still validated by separate threads
+    if mt.chance(1, 4) {
+        let fee = cs.stream.links[0].packets[0].rdh.fee_id;
+        for l in cs.stream.links.iter_mut() {
+            for p in l.packets.iter_mut() {
+                p.rdh.fee_id = fee;
+            }
+        }
+        labels.push("same_fee_id_on_all_links".into());
+    }
     // targeted same-offset errors on every link
     for l in cs.stream.links.iter_mut() {
         let np = l.packets.len();
